@@ -677,7 +677,8 @@ def fix_seq(c, bs, in_item=False):
 def plan_labels(c):
     t = c.t
     n = 1 + t.below(5)
-    pool = list(LABELS)
+    # (reflow rewrites Unicode spaces as breaks -- recorded finding F16 -- so labels holding one stay out of reflow documents)
+    pool = [x for x in LABELS if not (c.reflow and any(ch.isspace() and ch != ' ' for ch in x))]
     for i in range(n):
         label = pool.pop(t.below(len(pool)))
         defs = []
